@@ -171,6 +171,30 @@ Theorem C05_source_poll_is_model : forall iter (interval : nat -> option Q) max 
 Proof. exact gen_sleep_looper_const_is_model. Qed.
 Print Assumptions C05_source_poll_is_model.
 
+(** [WhileDecorator.while_loop] READ FROM THE SOURCE: whileCounter starts at 0; a decorator with
+    neither max nor stop is a PipelineDefinitionError; errorOnMax (as bool) and sleep (as float) are
+    read once, before the first iteration, then max (as int); max < 1 runs nothing; the iterations
+    are polled with that sleep and max; when the poll ends false, errorOnMax decides between a quiet
+    end and LoopMaxExhaustedError with the documented texts.  It is the model's [while_loop]. *)
+Theorem C05_source_while_loop_is_model : forall (rg : RG) (rp : RP) w sp s,
+  gen_while_loop w
+    (fun sleep max_attempts s0 =>
+       poll LOOPFUEL (while_iter rg rp w sp) (fun _ => Some sleep) max_attempts 0 s0) s
+  = while_loop rg rp w sp s.
+Proof. exact gen_while_loop_is_model. Qed.
+Print Assumptions C05_source_while_loop_is_model.
+
+(** ... and the three generated layers composed (while_loop, exec_iteration, the polling loop) *)
+Theorem C05_source_while_stack_is_model : forall (rg : RG) (rp : RP) w sp s,
+  gen_while_loop w
+    (fun sleep max_attempts s0 =>
+       gen_sleep_looper
+         (gen_while_exec_iteration w (fun c => foreach_or_cond rg rp sp (mkcnt (Some c) None None)))
+         false (fun _ => None) (Some sleep) max_attempts LOOPFUEL s0) s
+  = while_loop rg rp w sp s.
+Proof. exact gen_while_stack_is_model. Qed.
+Print Assumptions C05_source_while_stack_is_model.
+
 (** * Non-vacuity: while(max 3, stop when cnt>=4) over foreach [a;b], sleeping 1/2 *)
 Definition lib5 : library :=
   [("main", [("steps", Some [
